@@ -763,7 +763,7 @@ DROPPING = ("Iterator::filter", "Iterator::filter_map", "Iterator::skip", "Itera
             "BTreeMap::split_off", "BTreeMap::remove", "BTreeMap::remove_entry", "Dict::remove", "Dict::retain")
 
 
-def check_nothing_dropped(ctx, rep, which="decode"):
+def check_nothing_dropped(ctx, rep, which="decode", only=None):
     """between the members of the document and the value built from them nothing is selected away: the Hayson reader calls no
     filtering / truncating / removing operation on what it decoded - except taking `ver` out of the *grid's* own meta (the version is
     a field of Grid). "No tag, cell, column or row is lost" for every document, whatever its contents"""
@@ -771,8 +771,9 @@ def check_nothing_dropped(ctx, rep, which="decode"):
 
     prog = ctx.prog
     n = 0
-    fsuf = "encoding/json/%s.rs" % which
-    roots = [b for b in prog.bodies.values() if b.file.endswith(fsuf) and b.rec["kind"] != "Closure" and "::test" not in b.id]
+    RULE = "T-HAYSON" if "/" not in which else "T-KEEP"
+    fsuf = which if "/" in which else "encoding/json/%s.rs" % which
+    roots = [b for b in prog.bodies.values() if b.file.endswith(fsuf) and b.rec["kind"] != "Closure" and "::test" not in b.id and (only is None or only(b))]
     for b in roots:
         for c in DR._calls(prog, b):
             body, bi, nm, args = c[0], c[1], c[2], c[3]
@@ -792,11 +793,13 @@ def check_nothing_dropped(ctx, rep, which="decode"):
                         break
                     rcv = rcv[:mm.start()] + repr(G.describe_place(body, {"l": int(mm.group(1)), "p": []})) + rcv[mm.end():]
                 if key_arg == "conststr:ver" and "conststr:meta" in rcv and "elem(" not in rcv and re.search(r"get_dict\(_1\**, conststr:meta\)", rcv):
-                    rep.ok("T-HAYSON", "nothing-dropped:%s:remove-ver-from-grid-meta" % fn, body.where(bi), "`ver` is taken out of the grid's own meta (it is stored in Grid.ver)")
+                    rep.ok(RULE, "nothing-dropped:%s:remove-ver-from-grid-meta" % fn, body.where(bi), "`ver` is taken out of the grid's own meta (it is stored in Grid.ver)")
                     continue
-                rep.bad("T-HAYSON", "T-HAYSON:nothing-dropped:%s:remove" % fn, body.where(bi), "%s removes %s from %s: a decoded tag is dropped (only `ver` of the grid's own meta may be taken out)" % (fn, key_arg, rcv[:100]))
+                rep.bad(RULE, RULE + ":nothing-dropped:%s:remove" % fn, body.where(bi), "%s removes %s from %s: a decoded tag is dropped (only `ver` of the grid's own meta may be taken out)" % (fn, key_arg, rcv[:100]))
                 continue
-            rep.bad("T-HAYSON", "T-HAYSON:nothing-dropped:%s:%s" % (fn, short.split("::")[-1]), body.where(bi), "%s passes decoded data through %s: elements / members for which the selection fails never reach the result" % (fn, short))
+            rep.bad(RULE, RULE + ":nothing-dropped:%s:%s" % (fn, short.split("::")[-1]), body.where(bi), "%s passes decoded data through %s: elements / members for which the selection fails never reach the result" % (fn, short))
+    if n == 0:
+        rep.ok(RULE, "nothing-dropped:%s:none" % fsuf.split("/")[-1].replace(".rs", "") + ("" if only is None else ":selected-impls"), "-", "no filtering / truncating / removing operation in %s (%d functions)" % (fsuf, len(roots)))
     return n
 
 
